@@ -243,7 +243,8 @@ func (c *Conn) processEncryptedClientHello(h *clientHello, isRetry bool) (*clien
 			hpkeCtx = ctx
 		}
 		if hpkeCtx == nil {
-			return nil, ErrIllegalParameter
+			// No encapsulated key: the payload cannot be opened.
+			continue
 		}
 		aad, err := h.marshalAAD()
 		if err != nil {
